@@ -17,6 +17,7 @@ import (
 	kbprom "github.com/kubewharf/kubebrain/pkg/metrics/prometheus"
 
 	"verif/sim/rt"
+	"verif/sim/simkv"
 	"verif/sim/world"
 )
 
@@ -58,6 +59,11 @@ func genC20(r *rt.Rand, tier string, idx int) *world.Scenario {
 	// a task parked inside the metrics client may hold one of the node's locks (the hub emits under
 	// its lock): the yield at a vector miss is only used by the component-level class
 	sc.Inactive = []string{"prom.vec.miss"}
+	if idx%8 == 2 {
+		// a slow engine under the handlers' one-second write deadline
+		sc.Class = "hostile-requests+slow-engine"
+		sc.Plan = append(sc.Plan, &simkv.Fault{Op: "commit", Class: "data", Nth: 1 + r.Intn(6), Effect: fmt.Sprintf("delay:%d", 1100+r.Intn(4000))})
+	}
 	nc := 1
 	if idx%4 == 3 {
 		nc = 2
@@ -379,6 +385,7 @@ func c20Custom(t *testing.T, sc *world.Scenario, out *Outcome) {
 		name := strings.SplitN(bad, ":", 2)[0]
 		out.violate(P, "metric-label-set", "metric-label-set name="+name, "metric emitted with different kinds / label-name sets: %s", bad)
 	}
+	out.Fired = w.KV.Fired
 	c20MetricPanics(sn.M, out)
 	for _, f := range w.Fatals {
 		// klog.Fatal ends a real node's process
